@@ -1581,3 +1581,49 @@ VARIANTS['C17'] += [
         "        secondary=mediafile_keys, back_populates='encryption_keys',\n        passive_deletes=False)\n")],
       None),
 ]
+
+USERM = 'dashlive/server/requesthandler/user_management.py'
+VARIANTS['C15'] += [
+    V('records of used CSRF tokens wiped whenever a fresh token collection is issued',
+      [(USERM, "def generate_csrf_tokens() -> CsrfTokenCollection:\n    csrf_key: str = CsrfProtection.generate_cookie()\n",
+        "def generate_csrf_tokens() -> CsrfTokenCollection:\n    csrf_key: str = CsrfProtection.generate_cookie()\n    Token.prune_database(True, db.session)\n")],
+      'R15.7', 'generate_csrf_tokens'),
+    V('neutral: expired token records pruned whenever a fresh token collection is issued',
+      [(USERM, "def generate_csrf_tokens() -> CsrfTokenCollection:\n    csrf_key: str = CsrfProtection.generate_cookie()\n",
+        "def generate_csrf_tokens() -> CsrfTokenCollection:\n    csrf_key: str = CsrfProtection.generate_cookie()\n    Token.prune_database(all_csrf=False, session=db.session)\n")],
+      None),
+    V('expiry test dropped from the pruning of token records',
+      [('dashlive/server/models/token.py', "        stmt = delete(cls).where(cls.expires < now)\n        session.execute(stmt)\n        if all_csrf:\n",
+        "        stmt = delete(cls).where(cls.token_type != TokenType.REFRESH)\n        session.execute(stmt)\n        if all_csrf:\n"),
+       (USERM, "def generate_csrf_tokens() -> CsrfTokenCollection:\n    csrf_key: str = CsrfProtection.generate_cookie()\n",
+        "def generate_csrf_tokens() -> CsrfTokenCollection:\n    csrf_key: str = CsrfProtection.generate_cookie()\n    Token.prune_database(all_csrf=False, session=db.session)\n")],
+      'R15.7', 'generate_csrf_tokens'),
+]
+
+_SEARCH_OLD = "        while (seg_start_tc + (self.segments[mod_segment].duration // 2)) < timecode:\n"
+for _p, _r in (('C09', 'R09.8'), ('C12', 'R12.7')):
+    VARIANTS[_p] += [
+        V('nearest-start search decides with the duration of the previous segment',
+          [(REPF, _SEARCH_OLD, "        while (seg_start_tc + (self.segments[mod_segment - 1].duration // 2)) < timecode:\n")],
+          _r, 'get_segment_index'),
+        V('nearest-start search decides with the nominal segment duration',
+          [(REPF, _SEARCH_OLD, "        while (seg_start_tc + (self.segment_duration // 2)) < timecode:\n")],
+          _r, 'get_segment_index'),
+        V('neutral: nearest-start search names the duration of the segment at hand',
+          [(REPF, _SEARCH_OLD + "            seg_start_tc += self.segments[mod_segment].duration\n",
+            "        while True:\n            this_duration = self.segments[mod_segment].duration\n"
+            "            if (seg_start_tc + (this_duration // 2)) >= timecode:\n                break\n"
+            "            seg_start_tc += this_duration\n")],
+          None),
+    ]
+VARIANTS['C09'] += [
+    V('origin pulled back by one loop when it is later than the timecode',
+      [(REPF, "        mod_segment, seg_start_tc, origin_time = self.get_segment_index(timecode)\n",
+        "        mod_segment, seg_start_tc, origin_time = self.get_segment_index(timecode)\n"
+        "        if origin_time > timecode:\n            origin_time -= self.mediaDuration\n            seg_start_tc -= self.mediaDuration\n")],
+      'R09.7', 'calculate_segment_from_timecode'),
+    V('neutral: index triple unpacked from a named result',
+      [(REPF, "        mod_segment, seg_start_tc, origin_time = self.get_segment_index(timecode)\n",
+        "        found = self.get_segment_index(timecode)\n        mod_segment, seg_start_tc, origin_time = found\n")],
+      None),
+]
